@@ -331,6 +331,7 @@ fn ladder(ctx: &Ctx, depth: usize, kind: usize, k: usize) -> Option<(String, Str
     let fail = read(&format!("(c07-deep {} (lambda () {}))", depth, expr)).unwrap();
     let payload = json!({"ladder": {"depth": depth, "kind": kname, "k": k}});
     let mut after_one = (0usize, 0usize, 0usize, 0usize);
+    let mut first_cap = 0usize;
     for i in 0..k {
         let (r, _) = s.eval_form(&fail);
         if let FormResult::Panic(p) = r {
@@ -345,6 +346,16 @@ fn ladder(ctx: &Ctx, depth: usize, kind: usize, k: usize) -> Option<(String, Str
         let used = h.verif_cells().len() - h.verif_free_list().len();
         let frames = s.vm.last_stacktrace().map(|t| t.frames.len()).unwrap_or(0);
         let now = (s.vm.verif_stack().get_sp(), s.vm.verif_stack().len(), used, frames);
+        let cap = s.vm.verif_heap().verif_cells().len();
+        if i == 0 {
+            first_cap = cap;
+        } else if cap > first_cap + 8192 {
+            return Some((
+                "C07|accumulates|heap-capacity".into(),
+                format!("heap capacity {} cells after one failure of depth {} ({}), {} after {} failures (no collection ever runs on the failure path)", first_cap, depth, kname, cap, i + 1),
+                payload,
+            ));
+        }
         if i == 0 {
             after_one = now;
         } else if now.0 > after_one.0 || now.1 > after_one.1 || now.3 > after_one.3 || (i + 1 == k && now.2 > after_one.2 + 64) {
@@ -383,11 +394,15 @@ impl Prop for C07 {
         let cases = ctx.tier.pick(600u32, 9_000u32);
         ctx.run_bytes("session", cases, 1536, case);
         // ladder
-        let ks: &[usize] = if ctx.tier == Tier::Quick { &[1, 2, 10, 100] } else { &[1, 2, 10, 100, 1000] };
+        let ks: &[usize] = &[1, 2, 10, 100, 1000];
         let mut idx = 0;
         for depth in [0usize, 5, 100] {
             for kind in 0..FAIL_KINDS.len() {
                 for k in ks {
+                    // quick tier: the 1000-failure rung only for the deepest chain and three kinds
+                    if ctx.tier == Tier::Quick && *k == 1000 && (depth != 100 || kind > 2) {
+                        continue;
+                    }
                     idx += 1;
                     if idx % ctx.nshards != ctx.shard {
                         continue;
